@@ -20,6 +20,7 @@ const (
 	vpSecEnq
 	vpSecDone
 	vpSFCleanup
+	vpWaitAfterSend
 )
 
 // exported aliases for harness code living outside this package
@@ -35,6 +36,7 @@ const (
 	VPSecEnq             = vpSecEnq
 	VPSecDone            = vpSecDone
 	VPSFCleanup          = vpSFCleanup
+	VPWaitAfterSend      = vpWaitAfterSend
 )
 
 var verifHook atomic.Pointer[func(id int)]
